@@ -1,5 +1,119 @@
-import EnvVerif.Lemmas.Basic
+/-
+  Props/C05.lean — serialization round-trips exactly.
+
+  "For every envelope, decoding its CBOR encoding yields an envelope that is identical to
+  it - same case and digest at every position - and that re-encodes to the very same bytes;
+  this holds for elided, encrypted, compressed, known-value, wrapped and nested-node
+  elements and for every leaf CBOR type."
+
+  Hypotheses.  `Inv h e` (Model/Inv.lean) and `EncShape e` (Lemmas/CodecLemmas.lean: the
+  shape `bc-components` gives every encrypted / compressed element — 12-byte nonce, 16-byte
+  tag, non-empty aad; u32 checksum, u64 size, data no longer than size).  `EncShape` is
+  established by `encShape_encryptWithDigest` / `encShape_compressedOf` and by the decoder
+  (`decode_inv` in C06).  At the byte level the two laws of the dCBOR codec enter as the
+  explicit hypothesis `CodecLaws` (Lemmas/CodecLaws.lean; not an axiom, not proved here for
+  the Lean codec), together with `Encodable e` (leaves are valid dCBOR, counts fit in 64
+  bits), which makes the tree `Cbor.Valid`.
+
+  The decoded value is *equal* to the original as a term of `Env`; since `Env` carries the
+  case, the cached digest and all children at every position, equality is "same case and
+  digest at every position" (`decode_encode_identical` spells that out on `elements`).
+-/
+import EnvVerif.Lemmas.CodecLemmas
 namespace EnvVerif
-/-- placeholder while the property theorems are being written -/
-theorem c05_sort_asc_id {as : List Env} (hs : AscDigests as) : sortByDigest as = as := sortByDigest_of_asc hs
+open Env
+
+section
+variable (h : Hash)
+
+/-! ### tree level (no codec law) -/
+
+/-- C05 core: the case-directed decoder inverts the case-directed encoder. -/
+theorem envOfCbor_cborOf (e : Env) (hi : Inv h e) (hs : EncShape e) :
+    envOfCbor h (cborOf e) = .ok e :=
+  envOfCbor_cborOf_aux h e hi.1 hi.2 hs
+
+example : envOfCbor CodecEx.toyH (cborOf CodecEx.sample) = .ok CodecEx.sample :=
+  envOfCbor_cborOf _ _ CodecEx.sample_inv CodecEx.sample_encShape
+
+/-- the list form (the assertion elements of a node) -/
+theorem envOfCborList_cborOfList (as : List Env) (hi : ∀ a ∈ as, Inv h a)
+    (hs : ∀ a ∈ as, EncShape a) : envOfCborList h (cborOfList as) = .ok as :=
+  envOfCborList_cborOfList_aux h as ((WFList_iff h as).mpr fun a ha => (hi a ha).1)
+    ((CanonList_iff as).mpr fun a ha => (hi a ha).2) ((EncShapeList_iff as).mpr hs)
+
+/-- `from_tagged_cbor (tagged_cbor e) = e` -/
+theorem envOfTaggedCbor_taggedCborOf (e : Env) (hi : Inv h e) (hs : EncShape e) :
+    envOfTaggedCbor h (taggedCborOf e) = .ok e := by
+  simp only [taggedCborOf, envOfTaggedCbor, beq_self_eq_true, if_true]
+  exact envOfCbor_cborOf h e hi hs
+
+/-- every leaf CBOR value whatsoever round-trips (no hypothesis at the tree level) -/
+theorem envOfCbor_cborOf_leaf (c : Cbor) : envOfCbor h (cborOf (newLeaf h c)) = .ok (newLeaf h c) :=
+  envOfCbor_cborOf h _ ⟨by simp only [newLeaf, WF], by simp only [newLeaf, Canon]⟩
+    (by simp only [newLeaf, EncShape])
+
+/-- the tree encoder is injective on the envelopes the library produces -/
+theorem cborOf_injective (e₁ e₂ : Env) (h₁ : Inv h e₁) (s₁ : EncShape e₁) (h₂ : Inv h e₂)
+    (s₂ : EncShape e₂) (heq : cborOf e₁ = cborOf e₂) : e₁ = e₂ := by
+  have r₁ := envOfCbor_cborOf h e₁ h₁ s₁
+  have r₂ := envOfCbor_cborOf h e₂ h₂ s₂
+  rw [heq, r₂] at r₁
+  injection r₁ with r₁
+  exact r₁.symm
+
+/-! ### byte level (with the codec laws) -/
+
+/-- the round trip, given that the tree is valid dCBOR -/
+theorem decode_encode_of_valid (L : CodecLaws) (e : Env) (hi : Inv h e) (hs : EncShape e)
+    (hv : (taggedCborOf e).Valid) : decode h (encode e) = .ok e := by
+  simp only [decode, encode, L.dec_enc _ hv]
+  exact envOfTaggedCbor_taggedCborOf h e hi hs
+
+/-- C05: `from_tagged_cbor_data (to_cbor_data e) = e` -/
+theorem decode_encode (L : CodecLaws) (e : Env) (hi : Inv h e) (hs : EncShape e)
+    (he : Encodable e) : decode h (encode e) = .ok e :=
+  decode_encode_of_valid h L e hi hs (taggedCborOf_valid he hs)
+
+/- the hypotheses on `e` are satisfiable by a non-trivial envelope (node, wrapped subject,
+assertion with known-value predicate and text leaf object, elided, encrypted and compressed
+elements) -/
+example : Inv CodecEx.toyH CodecEx.sample ∧ EncShape CodecEx.sample ∧ Encodable CodecEx.sample :=
+  ⟨CodecEx.sample_inv, CodecEx.sample_encShape, CodecEx.sample_encodable⟩
+
+/-- identical: same element (case, digest, children) at every position of the structure
+walk, same top digest -/
+theorem decode_encode_identical (L : CodecLaws) (e e' : Env) (hi : Inv h e) (hs : EncShape e)
+    (he : Encodable e) (hd : decode h (encode e) = .ok e') :
+    e' = e ∧ elements e' = elements e ∧ e'.digest = e.digest := by
+  rw [decode_encode h L e hi hs he] at hd
+  injection hd with hd
+  subst hd
+  exact ⟨rfl, rfl, rfl⟩
+
+/-- the decoded value re-encodes to the very same bytes, and the second generation decodes
+to the same envelope again -/
+theorem decode_encode_second_generation (L : CodecLaws) (e e' : Env) (hi : Inv h e)
+    (hs : EncShape e) (he : Encodable e) (hd : decode h (encode e) = .ok e') :
+    encode e' = encode e ∧ decode h (encode e') = .ok e' := by
+  obtain ⟨rfl, _, _⟩ := decode_encode_identical h L e e' hi hs he hd
+  exact ⟨rfl, hd⟩
+
+/-- every valid dCBOR value round-trips as a leaf through the bytes -/
+theorem decode_encode_leaf (L : CodecLaws) (c : Cbor) (hc : c.Valid) :
+    decode h (encode (newLeaf h c)) = .ok (newLeaf h c) :=
+  decode_encode h L _ ⟨by simp only [newLeaf, WF], by simp only [newLeaf, Canon]⟩
+    (by simp only [newLeaf, EncShape]) (by simpa only [newLeaf, Encodable] using hc)
+
+/-- the byte encoder is injective on the envelopes the library produces -/
+theorem encode_injective (L : CodecLaws) (e₁ e₂ : Env) (h₁ : Inv h e₁) (s₁ : EncShape e₁)
+    (v₁ : Encodable e₁) (h₂ : Inv h e₂) (s₂ : EncShape e₂) (v₂ : Encodable e₂)
+    (heq : encode e₁ = encode e₂) : e₁ = e₂ := by
+  have r₁ := decode_encode h L e₁ h₁ s₁ v₁
+  have r₂ := decode_encode h L e₂ h₂ s₂ v₂
+  rw [heq, r₂] at r₁
+  injection r₁ with r₁
+  exact r₁.symm
+
+end
 end EnvVerif
